@@ -67,13 +67,13 @@ theorem ScopesExt.trans {a b c : Scopes} (h1 : ScopesExt a b) (h2 : ScopesExt b 
 instance : StdRel SEq where
   refl := fun _ => rfl
   trans := fun h1 h2 => Eq.trans h2 h1
-  of_eq := fun _ _ _ h => h
+  of_eq := fun _ _ _ _ h => h
   sm := fun _ _ _ => rfl
 
 instance : StdRel SExt where
   refl := fun c => ScopesExt.refl c.scopes
   trans := fun h1 h2 => ScopesExt.trans h1 h2
-  of_eq := fun c c' _ h => by unfold SExt; rw [h]; exact ScopesExt.refl _
+  of_eq := fun c c' _ _ h => by unfold SExt; rw [h]; exact ScopesExt.refl _
   sm := fun c _ _ => ScopesExt.refl c.scopes
 
 theorem SEq.toSExt {c c' : IndexCtx} (h : SEq c c') : SExt c c' := by
